@@ -15,9 +15,9 @@ Property search on the implementation (oracle independent of pyanalyze):
                              contains the result type of each accepted member's own call
   P3 an Any argument       : first accepting overload accepts through Any and another accepting overload has a different
                              return type => Any[multiple_overload_matches] (never one overload's type)
-A failing input is reported with the exception class the Lean driver computes (D08_emptyVarPos / D08_unionInVarPos) and
-conforms = (pyanalyze's result == the model's). Inside an exception class a difference between pyanalyze and the model is
-not a disagreement when the property itself was evaluated on that input and holds (the defect has been repaired there).
+A failing input is reported with the exception class the Lean driver computes (D08_unionInVarPos, the only remaining one;
+the former class emptyVarPos was repaired in /repo by 41847cf, its witnesses stay in corpus/C08.jsonl as regression cases) and
+conforms = (pyanalyze's result == the model's).
 """
 import itertools, json, os
 
@@ -646,7 +646,7 @@ def evaluate(ctx, cases, with_model=True):
             ctx.corr("spec")
             if macc != "".join("1" if a else "0" for a, _ in acc_o):
                 ctx.disagree("spec", dict(case, what="accepts per overload"), "oracle " + "".join("1" if a else "0" for a, _ in acc_o), model[i])
-            elif "emptyVarPos" not in dcls:   # there the model's flag is the defect, not the documented notion
+            else:
                 mu = "".join(u if a == "1" else "-" for a, u in zip(macc, mua))
                 ou = "".join(("1" if u else "0") if a else "-" for a, u in acc_o)
                 if mu != ou:
@@ -655,7 +655,6 @@ def evaluate(ctx, cases, with_model=True):
             ctx.sample({"overloads": case["overloads"], "call": case["call"], "pyanalyze": out, "reveal_type": impl[i]["reveal"],
                         "model": model[i] if model else None})
         conforms = (mres is None) or (out == mres)
-        n_before, checked = len(ctx.candidates), False
 
         def cand(what, prefer):
             cls = next((c for c in prefer if c in dcls), None)
@@ -668,9 +667,8 @@ def evaluate(ctx, cases, with_model=True):
             fm = first_match_oracle(sigs, call)
             want = "err" if fm is None else ret_out(fm)
             ctx.tag("P1_checked")
-            checked = True
             if out != want:
-                cand("no Any / no union: pyanalyze gives %s, first match gives %s" % (out, want), ["emptyVarPos"])
+                cand("no Any / no union: pyanalyze gives %s, first match gives %s" % (out, want), [])
         elif kind == "union1":
             slot = unions[0]
             ut = call[0][slot[1]] if slot[0] == "p" else dict(call[1])[slot[1]]
@@ -678,17 +676,15 @@ def evaluate(ctx, cases, with_model=True):
             ctx.tag("P2_checked")
             if all(r is not None for r in own):
                 ctx.tag("P2_all_members_accepted")
-                checked = True
                 if out.startswith("err"):
                     cand("one union argument, every member accepted by some overload (%s) but the call is diagnosed" % own,
-                         ["unionInVarPos", "emptyVarPos"])
+                         ["unionInVarPos"])
             if out.startswith("ok:"):
-                checked = True
                 flat = _flat_of_out(out)
                 for m, r in zip(UNION_MEMBERS[ut], own):
                     if r is not None and not set(flat_members(r)) <= flat:
                         cand("one union argument: the result %s does not contain %s, the result of member %s's own call" % (
-                            out, TYPES[r][0], m), ["unionInVarPos", "emptyVarPos"])
+                            out, TYPES[r][0], m), ["unionInVarPos"])
                         break
         elif kind == "any":
             acc = [s for s, (a, _) in zip(sigs, acc_o) if a]
@@ -697,7 +693,6 @@ def evaluate(ctx, cases, with_model=True):
                 distinct = any(s[1] != acc[0][1] for s in acc[1:])
                 if first_used and distinct:
                     ctx.tag("P3_checked")
-                    checked = True
                     if out != "multi":
                         cand("Any argument: first accepting overload accepts through Any and another accepting overload returns "
                              "a different type, but the result is %s" % out, [])
@@ -706,12 +701,7 @@ def evaluate(ctx, cases, with_model=True):
                 else:
                     ctx.tag("P3_single_return_type")
         if mres is not None and out != mres:
-            # inside an exception class the implementation may either behave like the (defective) model or satisfy the
-            # property under the direct oracle (the defect has been repaired); anything else is a disagreement
-            if dcls and checked and len(ctx.candidates) == n_before:
-                ctx.tag("satisfies_property_inside_D_unlike_model")
-            else:
-                ctx.disagree("e2e", case, out + " | " + impl[i]["reveal"], model[i])
+            ctx.disagree("e2e", case, out + " | " + impl[i]["reveal"], model[i])
 
 
 def _flat_of_out(out):
